@@ -93,7 +93,7 @@ func (env *verifEnv) c09Restart(t *testing.T) {
 	old := env.state
 	select {
 	case old.dbDone <- struct{}{}:
-	case <-time.After(20 * time.Second):
+	case <-time.After(90 * time.Second):
 		t.Fatal("restart: background copier did not stop")
 	}
 	if old.db != nil {
